@@ -8,6 +8,12 @@ HHInit == HInit /\ h = <<>>
 HHNext == /\ \/ (Alternate => last.a \in {"init", "rejuvenate"}) /\ EditStep
              \/ (Alternate => last.a \notin {"init", "rejuvenate"}) /\ Rejuvenate
           /\ h' = Append(h, last')
+\* focused run: range filters only on the root, manual edits only on the
+\* youngest member (index shifts between root, parent and grandchild)
+FocusNext == /\ \/ last.a \in {"init", "rejuvenate"}
+                   /\ EditStepR({0}, {L}, {2..4, 1..5, 2..5}, {})
+                \/ last.a \notin {"init", "rejuvenate"} /\ Rejuvenate
+             /\ h' = Append(h, last')
 Emit == (Len(h) = MaxDepth) => PrintT(<<"H", ToJson(h)>>)
 HCon == Len(h) <= MaxDepth /\ Emit
 =============================================================================
